@@ -63,12 +63,15 @@ func NewChecker(ctx context.Context, metrics *Store, threshold float64) *Checker
 func (mc *Checker) CheckPeers(peers []peer.ID) error {
 	for _, name := range mc.metrics.MetricNames() {
 		for _, peer := range peers {
-			for _, metric := range mc.metrics.PeerMetricAll(name, peer) {
-				if mc.FailedMetric(metric.Name, peer) {
-					err := mc.alert(peer, metric.Name)
-					if err != nil {
-						return err
-					}
+			// One decision per (metric name, peer), not one per
+			// stored metric. Nothing stored: nothing to report.
+			if mc.metrics.PeerLatest(name, peer) == nil {
+				continue
+			}
+			if mc.FailedMetric(name, peer) {
+				err := mc.alert(peer, name)
+				if err != nil {
+					return err
 				}
 			}
 		}
@@ -107,18 +110,18 @@ func (mc *Checker) alert(pid peer.ID, metricName string) error {
 		}
 	}
 
-	// If above threshold, remove all metrics for that peer
-	// and clean up failedPeers when no failed metrics are left.
+	failedMetrics[metricName]++
+
+	// Once the threshold is reached, forget the stale metrics for that
+	// peer right away (together with the counter), so that a later
+	// metric from the same peer starts from a clean slate.
 	if failedMetrics[metricName] >= MaxAlertThreshold {
 		mc.metrics.RemovePeerMetrics(pid, metricName)
 		delete(failedMetrics, metricName)
 		if len(mc.failedPeers[pid]) == 0 {
 			delete(mc.failedPeers, pid)
 		}
-		return nil
 	}
-
-	failedMetrics[metricName]++
 
 	alrt := &api.Alert{
 		Metric:      *lastMetric,
